@@ -15,6 +15,7 @@ type propCfg struct {
 	Real         []string
 	Stub         []string
 	ProbeNames   []string
+	WatchdogSecs int // a run may take this long without progress (default 120)
 }
 
 var commonAssumptions = []string{
@@ -93,7 +94,7 @@ var clntReal = []string{"go9p client library (Clnt, Rpc/Rpcnb, recv/send gorouti
 var clntStub = []string{"9P server: scripted peer with an independent codec, answering in scheduler-chosen order", "transport: simulated net.Conn (segmentation, back-pressure)"}
 
 func init() {
-	reg(&propCfg{ID: "C09", QuickRuns: 2000, QuickSecs: 40, ThoroughRuns: 200000, ThoroughSecs: 780, Chunk: 25,
+	reg(&propCfg{ID: "C09", QuickRuns: 2000, QuickSecs: 40, ThoroughRuns: 200000, ThoroughSecs: 780, Chunk: 25, WatchdogSecs: 900,
 		RuleNote:   "C09: stratum 'concurrent': 1..16 (thorough ..64) caller goroutines with 2..8 calls each (Read, Write, Stat, Walk, Open, Clunk, reads answered with Rerror text+number, reads answered with a reply of the wrong type, pipelined Tag-interface reads sharing a tag); the scripted server withholds replies with drawn probability and releases them one per phase in scheduler-chosen order, replies segmented by policy; reply content is a function of the request. Stratum 'long-run' (every 50th run): 10 000 (thorough 70 000 > 65 535) consecutive calls over one connection.",
 		Real:       clntReal, Stub: clntStub,
 		ProbeNames: []string{"8+-calls-outstanding", "32+-calls-outstanding", "replies-delivered-out-of-order", "tag-value-reused-after-free", "5+-replies-withheld"}})
